@@ -754,6 +754,7 @@ func (s *State) applyFunction(name string, fn object.Object, args []object.Objec
 	if oerr != nil {
 		return *oerr
 	}
+	epochAtCall := s.cacheEpoch
 	curState := s.env
 	s.env = nenv
 	oldOut := s.Out
@@ -791,6 +792,11 @@ func (s *State) applyFunction(name string, fn object.Object, args []object.Objec
 	// Don't cache errors, as it could be due to binding for instance.
 	if res.Type() == object.ERROR {
 		log.Debugf("Cache miss for %s %v, not caching error result", function.CacheKey, args)
+		return res
+	}
+	// Nor what was computed (partly) before a function or constant was replaced during the call: the cache has been reset since.
+	if s.cacheEpoch != epochAtCall || s.rootEnv.Epoch() != epochAtCall {
+		log.Debugf("Cache miss for %s %v, definitions changed during the call", function.CacheKey, args)
 		return res
 	}
 	// Nor a function created by this call (a closure over this call's variables, each call makes its own).
